@@ -160,21 +160,36 @@ class FakeTime:
         return self._loop.time()
 
 
-def make_fake_datetime(loop: Any):
-    """A ``datetime`` subclass whose ``now`` reads the loop's virtual clock (everything else is the real class)."""
+def _real_datetime_at(t: Any) -> _dt.datetime:
+    """EPOCH + t seconds as a REAL (C) datetime.  Under CrossHair, constructor calls of datetime/timedelta are
+    patched to its symbolic pure-Python classes (which pydantic-core cannot take); so realise `t` and build the
+    value with tracing off."""
+    if vlib.boot.under_crosshair():
+        try:
+            from crosshair import realize
+            from crosshair.tracers import NoTracing, is_tracing
+        except Exception:  # pragma: no cover
+            return EPOCH + _dt.timedelta(seconds=float(t))
+        if is_tracing():
+            secs = realize(t)
+            with NoTracing():
+                return EPOCH + _dt.timedelta(seconds=float(secs))
+    return EPOCH + _dt.timedelta(seconds=float(t))
 
-    class FakeDatetime(_dt.datetime):
-        @classmethod
-        def now(cls, tz=None):  # type: ignore[override]
-            t = loop.time()
-            # realise: timedelta arithmetic is concrete C code
-            secs = float(t)
-            d = EPOCH + _dt.timedelta(seconds=secs)
+
+def make_fake_datetime(loop: Any):
+    """Stands in for the name ``datetime`` inside a module under test: ``now`` reads the loop's virtual clock and
+    returns a real datetime; ``fromisoformat`` etc. are the real classmethods."""
+
+    class FakeDatetime:
+        @staticmethod
+        def now(tz: Any = None) -> _dt.datetime:
+            d = _real_datetime_at(loop.time())
             return d if tz is not None else d.replace(tzinfo=None)
 
-        @classmethod
-        def utcnow(cls):  # type: ignore[override]
-            return cls.now(None)
+        @staticmethod
+        def fromisoformat(s: str) -> _dt.datetime:
+            return _dt.datetime.fromisoformat(s)
 
     return FakeDatetime
 
